@@ -303,6 +303,27 @@ func extractFacts(repo string) (string, error) {
 		{"policy/policy.go", "BaseFailurePolicy", "HandleIf"}, {"policy/policy.go", "BaseAbortablePolicy", "AbortOnErrorTypes"},
 		{"policy/policy.go", "BaseAbortablePolicy", "AbortIf"}, {"policy/policy.go", "BaseAbortablePolicy", "IsConfigured"},
 		{"internal/util/util.go", "", "ErrorTypesMatch"}, {"internal/util/util.go", "", "errorAs"}, {"internal/util/util.go", "", "AppliesToAny"},
+		// entry points, constructors and getters: the code between the caller and the modelled executors
+		{"executor.go", "", "Run"}, {"executor.go", "", "RunWithExecution"}, {"executor.go", "", "Get"}, {"executor.go", "", "GetWithExecution"},
+		{"executor.go", "", "RunAsync"}, {"executor.go", "", "RunWithExecutionAsync"}, {"executor.go", "", "GetAsync"},
+		{"executor.go", "", "GetWithExecutionAsync"}, {"executor.go", "", "NewExecutor"}, {"executor.go", "executor", "WithContext"},
+		{"executor.go", "executor", "OnDone"}, {"executor.go", "executor", "OnSuccess"}, {"executor.go", "executor", "OnFailure"},
+		{"executor.go", "executor", "Run"}, {"executor.go", "executor", "RunWithExecution"}, {"executor.go", "executor", "Get"},
+		{"executor.go", "executor", "GetWithExecution"}, {"executor.go", "executor", "RunAsync"}, {"executor.go", "executor", "RunWithExecutionAsync"},
+		{"executor.go", "executor", "GetAsync"}, {"executor.go", "executor", "GetWithExecutionAsync"}, {"execution.go", "execution", "StartTime"},
+		{"execution.go", "execution", "ElapsedTime"}, {"execution.go", "execution", "Context"}, {"execution.go", "execution", "AttemptStartTime"},
+		{"execution.go", "execution", "ElapsedAttemptTime"}, {"execution.go", "execution", "Canceled"}, {"events.go", "", "newExecutionDoneEvent"},
+		{"internal/execution.go", "", "FailureResult"}, {"failsafegrpc/client.go", "", "NewUnaryClientInterceptor"},
+		{"failsafegrpc/server.go", "", "NewServerInHandle"}, {"failsafegrpc/server.go", "", "NewUnaryServerInterceptor"},
+		{"failsafehttp/http.go", "", "NewRoundTripper"}, {"failsafehttp/http.go", "", "NewRoundTripperWithExecutor"},
+		{"failsafehttp/http.go", "", "NewRequest"}, {"failsafehttp/http.go", "", "NewRequestWithExecutor"}, {"fallback/fallback.go", "", "WithResult"},
+		{"fallback/fallback.go", "", "WithError"}, {"fallback/fallback.go", "", "WithFunc"}, {"hedgepolicy/hedge.go", "", "WithDelay"},
+		{"hedgepolicy/hedge.go", "", "WithDelayFunc"}, {"bulkhead/bulkhead.go", "bulkhead", "ToExecutor"},
+		{"cachepolicy/cache.go", "cachePolicy", "ToExecutor"}, {"ratelimiter/ratelimiter.go", "rateLimiter", "ToExecutor"},
+		{"timeout/timeout.go", "timeout", "ToExecutor"}, {"internal/util/util.go", "wallClock", "CurrentUnixNano"},
+		{"internal/util/util.go", "", "NewClock"}, {"internal/util/util.go", "", "NewStopwatch"},
+		{"internal/util/util.go", "wallClockStopwatch", "ElapsedTime"}, {"internal/util/util.go", "wallClockStopwatch", "Reset"},
+		{"retrypolicy/retry.go", "", "WithDefaults"}, {"circuitbreaker/circuitbreakerbuilder.go", "", "WithDefaults"},
 		// the breaker's small state and statistics functions the sequential breaker model transcribes
 		{"circuitbreaker/circuitstats.go", "countingStats", "recordFailure"}, {"circuitbreaker/circuitstats.go", "countingStats", "recordSuccess"},
 		{"circuitbreaker/circuitstats.go", "countingStats", "reset"}, {"circuitbreaker/circuitstats.go", "timedStats", "recordFailure"},
